@@ -290,6 +290,10 @@ class ThermochemIncomplete(ThermochemBase):
                         " new value.")
                 ND_S_ref = new_ND_S_ref
 
+        # Check that the merged data form a valid correlation before anything
+        # is stored, so that a rejected update leaves this object unchanged.
+        type(self)(ND_H_ref, ND_S_ref, ND_Cp_data, T_ref, data_range)
+
         # Now store new data and update internal correlation.
         self.set_range(data_range)
         self.T_ref = T_ref
